@@ -184,6 +184,17 @@ def gen_arith(c):
             put({"op": "point_from_octets", "a": bad}, grp="g1", expectbool=False)
             put({"op": "point_from_octets", "a": o1(P1)}, grp="g1", expectbool=True)
             put({"op": "point_from_octets", "a": b"\x04" + i2b(p) + i2b(P1[1])}, grp="g1", expectbool=False)
+    # distinct points with the same y: on y^2 = x^3 + 5 these are (w x, y) and (w^2 x, y) for a primitive cube root of unity w (p = 1 mod 3) -- G1 and, with
+    # w in F_p acting on the F_p^2 coordinate, the twist as well
+    w3 = next(w for w in (pow(g_, (p - 1) // 3, p) for g_ in range(2, 30)) if w != 1)
+    for P1 in pts[:3]:
+        for ww in (w3, w3 * w3 % p):
+            P2 = (P1[0] * ww % p, P1[1])
+            assert R.g1_on_curve(P2)
+            for lam in ({}, {"lamP": i2b(rng.randrange(2, p))}, {"lamP": i2b(rng.randrange(2, p)), "lamQ": i2b(rng.randrange(2, p))}):
+                put(dict({"op": "point_add", "P": o1(P1), "Q": o1(P2)}, **lam), grp="g1", **ptcase(P1, P2))
+                put(dict({"op": "point_sub", "P": o1(P1), "Q": o1(P2)}, **lam), grp="g1", **ptcase(P1, R.g1_neg(P2)))
+            put({"op": "point_equ", "P": o1(P1), "Q": o1(P2)}, grp="g1", expectbool=False)
     ks = [0, 1, 2, 3, N - 2, N - 1, N, N + 1, R256 - 1, 1 << 255, (1 << 128) - 1, int("aa" * 32, 16), int("55" * 32, 16)] + [rng.randrange(R256) for _ in range(3 if q else 40)]
 
     def exp1(Q):
@@ -228,6 +239,17 @@ def gen_arith(c):
             x, y = Q1
             put({"op": "twist_from_octets", "a": b"\x04" + R.fp2_to_bytes(x) + R.fp2_to_bytes(((y[0] + 1) % p, y[1]))}, grp="g2", expectbool=False)
             put({"op": "twist_from_octets", "a": o2(Q1)}, grp="g2", expectbool=True)
+    for Q1 in tw[:3]:
+        for ww in (w3, w3 * w3 % p):
+            Q2 = ((Q1[0][0] * ww % p, Q1[0][1] * ww % p), Q1[1])
+            if not R.g2_on_curve(Q2):
+                continue
+            s2 = R.g2_add(Q1, Q2)
+            put({"op": "twist_add_full", "P": o2(Q1), "Q": o2(Q2)}, grp="g2", **exp2(s2))
+            put({"op": "twist_add", "P": o2(Q1), "Q": o2(Q2)}, grp="g2", **exp2(s2))
+            put({"op": "twist_add_full", "P": o2(Q1), "Q": o2(Q2), "lamP": R.fp2_to_bytes((rng.randrange(1, p), rng.randrange(0, p))), "lamQ": R.fp2_to_bytes((rng.randrange(1, p), rng.randrange(0, p)))}, grp="g2", **exp2(s2))
+            put({"op": "twist_sub", "P": o2(Q1), "Q": o2(Q2)}, grp="g2", **exp2(R.g2_add(Q1, R.g2_neg(Q2))))
+            put({"op": "twist_equ", "P": o2(Q1), "Q": o2(Q2)}, grp="g2", expectbool=False)
     for k in ks[: (8 if q else len(ks))] + ks[-2:]:
         put({"op": "twist_mul_generator", "k": i2b(k)}, grp="g2", **exp2(R.g2_mul(k % N, G2) if k % N else None))
         put({"op": "twist_mul", "k": i2b(k), "P": o2(tw[3])}, grp="g2", **exp2(R.g2_mul(k % N, tw[3]) if k % N else None))
